@@ -221,6 +221,9 @@ func main() {
 	r := &Result{Property: prop, Tier: *tier, Seed: *seed, Dist: map[string]int{}, hashes: map[string]struct{}{}}
 	c := &Ctx{Tier: *tier, Seed: *seed, Rng: rand.New(rand.NewSource(*seed)), R: r,
 		Model: &Model{path: *vmodel}, Known: loadKnown(*known, prop), Replay: *replay, maxFail: 5}
+	if v := os.Getenv("VH_MAXFAIL"); v != "" {
+		fmt.Sscan(v, &c.maxFail)
+	}
 	start := time.Now()
 	if *replay != "" {
 		b, err := os.ReadFile(*replay)
